@@ -241,6 +241,7 @@ def check_core(run, prop):
     bits = {1: "pp-vs-Display", 2: "printed-text-tokens", 4: "lexer-model-glue", 8: "model-token-roundtrip", 16: "content", 32: "image-predicate"}
     relevant = (1, 2, 4, 8, 32) if prop == "C01" else (1, 16)
     cnt = {v: 0 for v in bits.values()}
+    stats["outside_syntactic_fragment_test"] = sum(1 for cd in codes if cd & 64)
     for i, cd in zip(idx, codes):
         c, r = cases[i], res[i]
         rs = r["result"]
